@@ -154,6 +154,28 @@ func (s *scripted) count() int {
 	return s.requests
 }
 
+// inspect does what any caller does with a returned error: print it and look for the
+// documented error interfaces in its chain. An error value that cannot be inspected without a
+// panic is not "a result or an error".
+func inspect(err error) {
+	for e := err; e != nil; e = errors.Unwrap(e) {
+		_ = e.Error()
+	}
+	var oe ociregistry.Error
+	if errors.As(err, &oe) {
+		oe.Code()
+		oe.Detail()
+		_ = oe.Error()
+	}
+	var he ociregistry.HTTPError
+	if errors.As(err, &he) {
+		he.StatusCode()
+		he.Response()
+		he.ResponseBody()
+	}
+	errors.Is(err, ociregistry.ErrBlobUnknown)
+}
+
 var hung bool // a previous case left a goroutine spinning: results are no longer trustworthy for timing
 
 func run(s Script, v *vt.V) {
@@ -178,7 +200,9 @@ func run(s Script, v *vt.V) {
 					return
 				}
 			}()
-			f()
+			if err := f(); err != nil {
+				inspect(err)
+			}
 			done <- nil
 		}()
 		select {
@@ -269,7 +293,11 @@ func run(s Script, v *vt.V) {
 				step("Size/ID/ChunkSize", func() error { w.Size(); w.ID(); w.ChunkSize(); return nil }) &&
 				step("Close", func() error { return w.Close() }) &&
 				step("Commit", func() error { _, err := w.Commit(sampleDg); return err }) &&
-				step("Cancel", func() error { return w.Cancel() })
+				step("Size/ID/ChunkSize after Commit", func() error { w.Size(); w.ID(); w.ChunkSize(); return nil }) &&
+				step("Commit again", func() error { _, err := w.Commit(sampleDg); return err }) &&
+				step("Write after Commit", func() error { _, err := w.Write(sample); return err }) &&
+				step("Cancel", func() error { return w.Cancel() }) &&
+				step("Close again", func() error { return w.Close() })
 		}
 	default:
 		v.Failf("harness", "unknown op %q", s.Op)
@@ -417,7 +445,7 @@ func genScript(t *rapid.T) Script {
 var prop = &vt.Prop[Script]{
 	ID:   "C18",
 	Name: "ClientAnyResponse",
-	Rule: "client operation = each client method (reads drained to EOF, listings drained, chunked writer: open / Write small / Write 100 KiB / Size / Close / Commit / Cancel, resume with explicit offset and with -1) x ListPageSize in {-5,-1,0,1,2,1000} x chunk hint x a script of 0-8 responses, each the expected answer distorted in one dimension: status from every class (2xx the operation does not expect, 3xx without Location, 4xx, 5xx), one of Location / Range / Content-Range / Docker-Content-Digest / Link / Content-Type / OCI-Chunk-Min-Length absent / empty / malformed / contradictory / huge, body empty / truncated / wrong-shape / garbage / null / 2 MiB, Content-Length unknown / too long / too short; served by a scripted RoundTripper that sets Response.Request and fails every request after the script is exhausted; oracle = no panic, every individual API call returns within 10 s and issues at most (answers still unconsumed) + 1 requests; non-trivial = a distorted response was actually consumed; distinct = (operation, page size, consumed fault vector)",
+	Rule: "client operation = each client method (reads drained to EOF, listings drained, chunked writer: open / Write small / Write 100 KiB / Size / Close / Commit / Size+ID / Commit again / Write / Cancel / Close, resume with explicit offset and with -1) x ListPageSize in {-5,-1,0,1,2,1000} x chunk hint x a script of 0-8 responses, each the expected answer distorted in one dimension: status from every class (2xx the operation does not expect, 3xx without Location, 4xx, 5xx), one of Location / Range / Content-Range / Docker-Content-Digest / Link / Content-Type / OCI-Chunk-Min-Length absent / empty / malformed / contradictory / huge, body empty / truncated / wrong-shape / garbage / null / 2 MiB, Content-Length unknown / too long / too short; served by a scripted RoundTripper that sets Response.Request and fails every request after the script is exhausted; oracle = no panic (also none when a returned error is printed, unwrapped and asked for its code, detail, status and response body), every individual API call returns within 10 s and issues at most (answers still unconsumed) + 1 requests; non-trivial = a distorted response was actually consumed; distinct = (operation, page size, consumed fault vector)",
 	Gen:  genScript,
 	Run:  run,
 }
